@@ -522,6 +522,30 @@ func (t *Table) AppendRow(data []string) error {
 	return t.InsertRow(len(t.Rows), data)
 }
 
+// repairVerticalMerges 在删除行之后修复第 rowIndex 行（被删除的行之下的第一行）的垂直合并：
+// 上方不再有对应合并单元格的 continue 单元格，下方仍有延续时成为新的起始单元格，否则取消合并
+func (t *Table) repairVerticalMerges(rowIndex int) {
+	if rowIndex < 0 || rowIndex >= len(t.Rows) {
+		return
+	}
+	row := &t.Rows[rowIndex]
+	for j := range row.Cells {
+		cell := &row.Cells[j]
+		if cellVMerge(cell) != "continue" {
+			continue
+		}
+		start, span := cellGridStart(row, j), cellGridSpan(cell)
+		if above := t.cellAtGrid(rowIndex-1, start, span); above != nil && cellVMerge(above) != "" {
+			continue
+		}
+		if below := t.cellAtGrid(rowIndex+1, start, span); below != nil && cellVMerge(below) == "continue" {
+			cell.Properties.VMerge = &VMerge{Val: "restart"}
+		} else {
+			cell.Properties.VMerge = nil
+		}
+	}
+}
+
 // DeleteRow 删除指定行
 func (t *Table) DeleteRow(rowIndex int) error {
 	if rowIndex < 0 || rowIndex >= len(t.Rows) {
@@ -534,6 +558,7 @@ func (t *Table) DeleteRow(rowIndex int) error {
 
 	// 删除行
 	t.Rows = append(t.Rows[:rowIndex], t.Rows[rowIndex+1:]...)
+	t.repairVerticalMerges(rowIndex)
 
 	Info(fmt.Sprintf("删除第%d行成功", rowIndex))
 	return nil
@@ -552,6 +577,7 @@ func (t *Table) DeleteRows(startIndex, endIndex int) error {
 
 	// 删除行范围
 	t.Rows = append(t.Rows[:startIndex], t.Rows[endIndex+1:]...)
+	t.repairVerticalMerges(startIndex)
 
 	Info(fmt.Sprintf("删除第%d到%d行成功", startIndex, endIndex))
 	return nil
